@@ -454,6 +454,93 @@ class C15(Prop):
                     viol.append({"func": "Dataset." + t, "operand": "source array " + k, "changed": what_changed(b_arr[k], snap(v))})
         return {"ok": {"violations": viol, "calls": ncalls, "funcs": {"Dataset." + call[0]: 1 for call in c["calls"]}, "impl_error": None}}
 
+    def run_derived(self, c):
+        a = DimArray(np.arange(int(np.prod(c["shape"])), dtype=float).reshape(c["shape"]),
+                     axes=[Axis(np.array(l, dtype=np.int64 if c.get("lkind", "i") == "i" else np.float64), n)
+                           for l, n in zip(c["labels"], c["names"])])
+        a.attrs["hist"] = ["h0"]
+        how = c["how"]
+        if how == "boolnd":
+            b = a[a > 1]
+        elif how == "flatten":
+            b = a.flatten()
+        elif how == "flatten_two":
+            b = a.flatten((c["names"][1], c["names"][0]))
+        elif how == "newaxis":
+            b = a.newaxis("t", pos=1)
+        elif how == "stack":
+            b = da.stack([a, a + 1], axis="s", keys=["p", "q"])
+        elif how == "take_list":
+            b = a.take([c["labels"][0][0]], axis=0)
+        else:
+            b = a.transpose(*reversed(a.dims))
+        other = DimArray(np.arange(len(c["labels"][-1]), dtype=float),
+                         axes=[Axis(np.array(c["labels"][-1], dtype=np.int64 if c.get("lkind", "i") == "i" else np.float64), c["names"][-1])])
+        viol, n = [], 0
+        for call in c["calls"]:
+            before = {"operand": snap(b), "source": snap(a), "other": snap(other)}
+            try:
+                if call == "add":
+                    b + other
+                elif call == "radd":
+                    other + b
+                elif call == "add_self":
+                    b + b
+                elif call == "reshape_same":
+                    b.reshape(*b.dims)
+                elif call == "reshape_t":
+                    b.reshape(*reversed(b.dims))
+                elif call == "mean":
+                    b.mean()
+                elif call == "sum_axis0":
+                    b.sum(axis=0)
+                elif call == "transpose":
+                    b.transpose(*reversed(b.dims))
+                elif call == "copy":
+                    b.copy()
+                elif call == "sort_axis":
+                    b.sort_axis(axis=0)
+                elif call == "take0":
+                    b.take(0, axis=0, indexing="position")
+                elif call == "eq":
+                    b == b
+                elif call == "align":
+                    da.align(b, other)
+                elif call == "stack_with":
+                    da.stack([b, b], axis="k", keys=[0, 1])
+                elif call == "to_dataset":
+                    Dataset({"v": b})
+                elif call == "unflatten":
+                    b.unflatten()
+                elif call == "fillna":
+                    b.fillna(0.)
+                elif call == "percentile":
+                    from dimarray.lib.stats import percentile
+                    percentile(b, [10, 50], axis=b.ndim - 1)
+                elif call == "quantile":
+                    from dimarray.lib.stats import quantile
+                    quantile(b, [0.1, 0.5], axis=0)
+                elif call == "quantile_last":
+                    from dimarray.lib.stats import quantile
+                    quantile(b, [0.1, 0.5], axis=b.ndim - 1)
+                elif call == "median":
+                    b.median(axis=0)
+                elif call == "cumsum":
+                    b.cumsum(axis=b.ndim - 1)
+                elif call == "diff":
+                    b.diff(axis=0)
+                elif call == "argmax":
+                    b.argmax(axis=0)
+                elif call == "interp":
+                    b.interp_axis(np.array([1.5, 2.5]), axis=b.ndim - 1)
+            except Exception:
+                pass
+            n += 1
+            for k, x in (("operand", b), ("source", a), ("other", other)):
+                if snap(x) != before[k]:
+                    viol.append({"func": call, "operand": k, "changed": what_changed(before[k], snap(x))})
+        return {"ok": {"violations": viol, "calls": n, "funcs": {"derived:" + how + ":" + call: 1 for call in c["calls"]}, "impl_error": None}}
+
     def sub(self, pid):
         if not hasattr(self, "_subs"):
             self._subs = {}
@@ -468,6 +555,18 @@ class C15(Prop):
             yield self.gen_heap(rng, i)
         for i in range(150 if tier == "quick" else 4000):
             yield self.gen_ds(rng, i)
+        for i in range(120 if tier == "quick" else 3000):
+            # operands that are themselves results of library operations (N-d boolean read, flatten, newaxis, stack ...)
+            rank = rng.choice([2, 2, 3])
+            shape = [rng.choice([2, 3]) for _ in range(rank)]
+            names = rng.sample(["x0", "x1", "y", "z"], rank)
+            yield {"op": "derived", "shape": shape, "names": names, "labels": [rng.sample(range(0, 9), n) for n in shape],
+                   "lkind": rng.choice(["i", "f"]),
+                   "how": rng.choice(["boolnd", "boolnd", "flatten", "flatten_two", "newaxis", "stack", "take_list", "transpose"]),
+                   "calls": [rng.choice(["add", "radd", "add_self", "reshape_same", "reshape_t", "mean", "sum_axis0", "transpose",
+                                         "copy", "sort_axis", "take0", "eq", "align", "stack_with", "to_dataset", "unflatten", "fillna",
+                                         "percentile", "quantile", "quantile_last", "median", "cumsum", "diff", "argmax", "interp"])
+                             for _ in range(rng.randint(1, 3))], "seed": i}
         import random as _r
         for pid in SWEEP:
             sub = self.sub(pid)
@@ -487,6 +586,8 @@ class C15(Prop):
                 return {"ok": {"steps": run_heap(c["ops"])}}
             if c["op"] == "ds":
                 return self.run_ds(c)
+            if c["op"] == "derived":
+                return self.run_derived(c)
             return self.sweep(c)
 
     def sweep(self, c):
@@ -535,7 +636,7 @@ class C15(Prop):
     def judge(self, c, io, ans):
         if "err" in io:
             return {"kind": "P", "differs": ["outcome:" + io["err"]], "msg": io.get("msg")}
-        if c["op"] in ("sweep", "ds"):
+        if c["op"] in ("sweep", "ds", "derived"):
             v = io["ok"]["violations"]
             if not v:
                 return None
@@ -591,7 +692,7 @@ class C15(Prop):
             if "ok" in io:
                 f["refused_steps"] = sum(1 for s in io["ok"]["steps"] if "err" in s)
         else:
-            f["plugin"] = c.get("plugin", "dataset-calls")
+            f["plugin"] = c.get("plugin", "dataset-calls" if c["op"] == "ds" else "derived-operands")
             if "ok" in io:
                 f["monitored_calls"] = min(io["ok"]["calls"], 9)
                 for q in io["ok"]["funcs"]:
